@@ -66,8 +66,9 @@ type PureFn struct {
 	Pkg      string
 	Params   []pparam
 	Result   ast.Expr
-	Body     ast.Expr
-	Abstract bool
+	Body      ast.Expr
+	Abstract  bool
+	Recursive bool
 }
 
 type ContractDB struct {
@@ -313,12 +314,21 @@ func (db *ContractDB) loadFile(path, pkg string) error {
 			}
 			curLoop = &LoopSpec{Ord: n}
 			cur.Loops[n] = curLoop
-		case "pure", "abstract":
+		case "pure", "abstract", "predicate":
+			if w == "predicate" {
+				// predicate name(p T) = body   (result type bool implied)
+				k := topLevelIndex(rest, " = ")
+				if k < 0 {
+					return fmt.Errorf("%s: predicate without body: %s", path, rest)
+				}
+				rest = rest[:k] + " bool" + rest[k:]
+			}
 			pf, err := parsePure(rest, w == "abstract")
 			if err != nil {
 				return fmt.Errorf("%s: %v", path, err)
 			}
 			pf.Pkg = pkg
+			pf.Recursive = w == "predicate"
 			db.pures[pf.Name] = pf
 			if w == "abstract" {
 				db.scan = append(db.scan, "abstract "+rest)
@@ -546,6 +556,7 @@ type SpecCtx struct {
 	pkg   *types.Package
 	depth int
 	fr    *Frame
+	preds map[string]string // predicate name -> symbol being defined (recursive occurrences)
 }
 
 func (c *SpecCtx) withVars(vs map[string]*specVar) *SpecCtx {
@@ -1176,6 +1187,9 @@ func (c *SpecCtx) evalCall(x *ast.CallExpr) (Val, types.Type) {
 			return v, t
 		}
 	}
+	if pf, ok := c.e.db.pures[fname]; ok {
+		return c.callPure(pf, x.Args)
+	}
 	switch fname {
 	case "implies__":
 		return Implies(c.evalBool(x.Args[0]), c.evalBool(x.Args[1])), tBool
@@ -1242,7 +1256,7 @@ func (c *SpecCtx) evalCall(x *ast.CallExpr) (Val, types.Type) {
 		if _, ok := under(t).(*types.Slice); ok {
 			r = SlArr(r)
 		}
-		return Select(c.alloc, r), tBool
+		return Allocd(c.alloc, r), tBool
 	case "fresh":
 		// fresh(x): x was not allocated in the old state
 		v, t := c.eval(x.Args[0])
@@ -1253,15 +1267,15 @@ func (c *SpecCtx) evalCall(x *ast.CallExpr) (Val, types.Type) {
 		if c.old == nil {
 			panic(sperr("fresh() outside a post-condition"))
 		}
-		return And(Not(Select(c.old.alloc, r)), Select(c.alloc, r), Eq(App("rkind", SInt, r), IntLit(0)), Gt(r, IntLit(0))), tBool
+		return And(Not(Allocd(c.old.alloc, r)), Allocd(c.alloc, r), Eq(App("rkind", SInt, r), IntLit(0)), Gt(r, IntLit(0))), tBool
 	case "arrOf":
 		v, _ := c.eval(x.Args[0])
 		return SlArr(v.(*Term)), tInt
 	case "iref":
 		v, _ := c.eval(x.Args[0])
 		return IfRef(v.(*Term)), tInt
-	case "str":
-		// str(b) : string of a byte slice at the current heap
+	case "bytestr":
+		// bytestr(b) : string of a byte slice at the current heap
 		v, t := c.eval(x.Args[0])
 		return c.bytesStr(v.(*Term), t), tString
 	case "held":
@@ -1311,12 +1325,72 @@ func (c *SpecCtx) callPure(pf *PureFn, args []ast.Expr) (Val, types.Type) {
 			argSorts = append(argSorts, tm.S)
 		}
 	}
+	if pf.Recursive {
+		return c.callPred(pf, pc.pkg, vs), rt
+	}
 	if pf.Abstract {
 		name := "|abs!" + pf.Name + "|"
 		declFun(name, sortOf(rt), argSorts...)
 		return App(name, sortOf(rt), argTerms...), rt
 	}
-	n := &SpecCtx{e: c.e, st: c.st, heaps: c.heaps, alloc: c.alloc, old: c.old, vars: vs, pkg: pc.pkg, depth: c.depth + 1, fr: c.fr}
+	n := &SpecCtx{e: c.e, st: c.st, heaps: c.heaps, alloc: c.alloc, old: c.old, vars: vs, pkg: pc.pkg, depth: c.depth + 1, fr: c.fr, preds: c.preds}
 	v, _ := n.eval(pf.Body)
 	return v, rt
+}
+
+// ---- recursive predicates ----------------------------------------------------------
+// A predicate is an uninterpreted symbol per heap footprint with the one-way
+// unfolding axiom  forall q. P(q) ==> body(q).  Proving P(x) therefore only
+// succeeds when the heaps it reads are the very ones it was assumed over.
+
+var predCache = map[string]string{}
+
+func (c *SpecCtx) callPred(pf *PureFn, pkg *types.Package, vs map[string]*specVar) *Term {
+	if len(pf.Params) != 1 {
+		panic(sperr("predicate %s: exactly one parameter supported", pf.Name))
+	}
+	arg := c.e.term(vs[pf.Params[0].Name].v)
+	if sym, ok := c.preds[pf.Name]; ok {
+		return App(sym, SBool, arg)
+	}
+	sym := freshName("pred." + pf.Name)
+	rec := map[string]*Term{}
+	base := c.heaps
+	heaps2 := func(name string, s Sort) *Term {
+		h := base(name, s)
+		rec[name] = h
+		return h
+	}
+	q := BoundVar("q", SInt)
+	n := &SpecCtx{e: c.e, st: c.st, heaps: heaps2, alloc: c.alloc, old: c.old, pkg: pkg, depth: c.depth + 1, fr: c.fr,
+		vars:  map[string]*specVar{pf.Params[0].Name: {v: q, t: vs[pf.Params[0].Name].t}},
+		preds: map[string]string{pf.Name: sym}}
+	for k, v := range c.preds {
+		n.preds[k] = v
+	}
+	body := n.evalBool(pf.Body)
+	var names []string
+	for k := range rec {
+		names = append(names, k)
+	}
+	sortStrings(names)
+	key := pf.Name
+	for _, k := range names {
+		key += "|" + k + "=" + rec[k].key
+	}
+	if s2, ok := predCache[key]; ok {
+		return App(s2, SBool, arg)
+	}
+	predCache[key] = sym
+	declFun(sym, SBool, SInt)
+	funAxioms[sym] = []*Term{Forall([]*Term{q}, Implies(App(sym, SBool, q), body), []*Term{App(sym, SBool, q)})}
+	return App(sym, SBool, arg)
+}
+
+func sortStrings(a []string) {
+	for i := 1; i < len(a); i++ {
+		for j := i; j > 0 && a[j] < a[j-1]; j-- {
+			a[j], a[j-1] = a[j-1], a[j]
+		}
+	}
 }
